@@ -201,40 +201,7 @@ func runC12(c *Ctx) {
 		c.verdict(okInit, c.nm(fn)+" | rem initialised to len(batch.requests)", c.P.Pos(fn.Pos()), "rem = len(batch.requests)", "batch.rem is not initialised to the number of requests of the batch")
 	})
 
-	c.rule("C12.O1", "no job lost: when a result carries an error, every path through the iteration either sends the batch's verdict or pushes the job back on the work heap and restores its currentQueries entry", func() {
-		fn := c.fn(fnDispatch)
-		errF := c.field("query", "jobResult", "err")
-		nilCmps := find(fn, binops(eqOps, func(v ssa.Value) bool { return isLoadOfPath(v, errF) }, ir.IsNil))
-		g := equalIs("result.err vs nil", nilCmps, true)
-		send := sendOn(c.loadsFieldNamed("batchProgress", "errChan"))
-		push := c.funcObj("container/heap", "Push")
-		jobF := c.field("query", "jobResult", "job")
-		repush := func(in ssa.Instruction) bool {
-			if !callTo(push)(in) {
-				return false
-			}
-			return ir.DerivesFrom(ir.CallOf(in).Args[1], func(x ssa.Value) bool {
-				fa, ok := x.(*ssa.FieldAddr)
-				return ok && ir.FieldOfAddr(fa) == jobF
-			})
-		}
-		c.mustFollowIter(fn, "result.err != nil", c.failEdges(g), anyOf(send, repush), "verdict send / heap.Push(work, result.job)", nil, 1)
-		// after a re-push the query index is re-registered
-		isQueries := func(v ssa.Value) bool {
-			m, ok := v.Type().Underlying().(*types.Map)
-			if !ok {
-				return false
-			}
-			kb, ok1 := m.Key().Underlying().(*types.Basic)
-			vb, ok2 := m.Elem().Underlying().(*types.Basic)
-			return ok1 && ok2 && kb.Kind() == types.Uint64 && vb.Kind() == types.Uint64
-		}
-		var starts []start
-		for _, p := range find(fn, repush) {
-			starts = append(starts, afterInstr(c, p))
-		}
-		c.mustFollowIter(fn, "job pushed back", starts, mapUpdate(isQueries), "currentQueries[job.index] = batchNum", nil, 1)
-	})
+	c.rule("C12.O1", noJobLostDoc, func() { c.noJobLost() })
 
 	c.rule("C12.V2", "a job's verdict is its own: the error worker.Run reports with a job (jobResult.err) is decided in the iteration that ran that job; no value reaches it from an earlier iteration of the job loop (an error left over from a timed-out or cancelled job would fail every later job the peer answered, and with it batches that were fully answered)", func() {
 		fn := c.fn(fnWRun)
@@ -512,6 +479,223 @@ func runC12(c *Ctx) {
 		c.mustFollowIter(fn, "the worker's exit signal", starts, del, "delete(workers, addr)", nil, 1)
 	})
 
+	c.rule("C12.O6", "the record behind the preference is kept and used: every result without error that the dispatcher counts reaches Ranking.Reward for the answering peer within the iteration, whatever becomes of the batch afterwards (the answer that completes a batch included - for the single-request batches that is every answer); every failed result reaches Ranking.Punish or ResetRanking; the hand-over loop runs over the slice Ranking.Order was applied to, and behind it; in the stock ranking Order sorts ascending by score, Reward lowers and Punish raises the score", func() {
+		fn := c.fn(fnDispatch)
+		errF := c.field("query", "jobResult", "err")
+		peerF := c.field("query", "jobResult", "peer")
+		nilCmps := find(fn, binops(eqOps, func(v ssa.Value) bool { return isLoadOfPath(v, errF) }, ir.IsNil))
+		g := equalIs("result.err vs nil", nilCmps, true)
+		ofPeer := func(in ssa.Instruction) bool {
+			cc := ir.CallOf(in)
+			if cc == nil || len(cc.Args) == 0 {
+				return false
+			}
+			return ir.InfluencedBy(cc.Args[len(cc.Args)-1], func(x ssa.Value) bool {
+				fa, ok := x.(*ssa.FieldAddr)
+				return ok && ir.FieldOfAddr(fa) == peerF
+			})
+		}
+		reward := allOf(callTo(c.method("query", "PeerRanking", "Reward")), ofPeer)
+		punish := allOf(anyOf(callTo(c.method("query", "PeerRanking", "Punish")), callTo(c.method("query", "PeerRanking", "ResetRanking"))), ofPeer)
+		c.mustFollowIter(fn, "result.err == nil", c.successEdges(g), reward, "Ranking.Reward(result.peer.Addr())", nil, 1)
+		c.mustFollowIter(fn, "result.err != nil", c.failEdges(g), punish, "Ranking.Punish / ResetRanking(result.peer.Addr())", nil, 1)
+
+		// the hand-over runs over the ordered slice
+		newJob := c.method("query", "Worker", "NewJob")
+		order := c.method("query", "PeerRanking", "Order")
+		orders := find(fn, callTo(order))
+		construct := c.nm(fn) + " | the hand-over loop runs over the ranked slice"
+		var hand []*ssa.Select
+		ir.Instrs(fn, func(in ssa.Instruction) {
+			sel, ok := in.(*ssa.Select)
+			if !ok {
+				return
+			}
+			for _, st := range sel.States {
+				if st.Dir == types.SendOnly && ir.DerivesFrom(st.Chan, valIsCallTo(newJob)) {
+					hand = append(hand, sel)
+				}
+			}
+		})
+		if len(hand) == 0 || len(orders) == 0 {
+			c.fail(construct, c.P.Pos(fn.Pos()), fmt.Sprintf("%d hand-over select(s), %d call(s) of Ranking.Order in the dispatcher", len(hand), len(orders)))
+			return
+		}
+		for _, sel := range hand {
+			ok := false
+			why := "no call of Ranking.Order dominates the hand-over"
+			for _, o := range orders {
+				if !(o.Block().Dominates(sel.Block()) && o.Block() != sel.Block()) || ir.LoopHeaderOf(o.Block()) == nil {
+					continue
+				}
+				why = "the worker handed the job is not taken from the slice Ranking.Order sorted"
+				// the peer key that selects the worker record comes out of the ordered slice
+				ordered := ir.CallOf(o).Args[len(ir.CallOf(o).Args)-1]
+				roots := map[ssa.Value]bool{}
+				var collect func(v ssa.Value, d int)
+				collect = func(v ssa.Value, d int) {
+					if d > 6 || roots[v] {
+						return
+					}
+					roots[v] = true
+					switch x := v.(type) {
+					case *ssa.Phi:
+						for _, e := range x.Edges {
+							collect(e, d+1)
+						}
+					case *ssa.UnOp:
+						collect(x.X, d+1)
+					case *ssa.Slice:
+						collect(x.X, d+1)
+					case *ssa.ChangeType:
+						collect(x.X, d+1)
+					}
+				}
+				collect(ordered, 0)
+				for _, st := range sel.States {
+					if st.Dir != types.SendOnly {
+						continue
+					}
+					fromOrdered := func(x ssa.Value) bool {
+						ia, isIA := x.(*ssa.IndexAddr)
+						if !isIA {
+							return false
+						}
+						if roots[ia.X] {
+							return true
+						}
+						if u, isU := ia.X.(*ssa.UnOp); isU && u.Op == token.MUL {
+							if ou, isOU := ordered.(*ssa.UnOp); isOU && ou.Op == token.MUL && ou.X == u.X {
+								return true
+							}
+						}
+						return false
+					}
+					if ir.InfluencedBy(st.Chan, func(x ssa.Value) bool {
+						if fromOrdered(x) {
+							return true
+						}
+						lk, isL := x.(*ssa.Lookup)
+						return isL && ir.DerivesFrom(lk.Index, fromOrdered)
+					}) {
+						ok = true
+					}
+				}
+			}
+			c.verdict(ok, construct, c.at(sel), "Ranking.Order(freeWorkers) dominates the select inside the dispatch loop, and the worker is looked up by an element of that slice", why, c.ats(orders)...)
+		}
+
+		// the stock ranking: ascending order, reward lowers, punish raises
+		rank := c.field("query", "peerRanking", "rank")
+		dir := func(name string, want token.Token) {
+			m := c.fn("(*query.peerRanking)." + name)
+			var ops []string
+			good := false
+			ir.Instrs(m, func(in ssa.Instruction) {
+				mu, ok := in.(*ssa.MapUpdate)
+				if !ok || !loadsField(rank)(mu.Map) {
+					return
+				}
+				if b, ok := mu.Value.(*ssa.BinOp); ok {
+					ops = append(ops, b.Op.String()+" at "+c.at(in))
+					if _, isC := b.Y.(*ssa.Const); isC && b.Op == want {
+						if lk, isL := ir.Strip(b.X).(*ssa.Lookup); isL && loadsField(rank)(lk.X) {
+							good = true
+						} else if ex, isE := b.X.(*ssa.Extract); isE {
+							if lk, isL := ex.Tuple.(*ssa.Lookup); isL && loadsField(rank)(lk.X) {
+								good = true
+							}
+						}
+					}
+				}
+			})
+			c.verdict(good && len(ops) == 1, c.nm(m)+" | moves the peer's score the way Order reads it", c.P.Pos(m.Pos()), "rank[peer] = score "+want.String()+" const, the only arithmetic store", fmt.Sprintf("stores to rank: %v; tabled: one store of score %s const", ops, want))
+		}
+		dir("Reward", token.SUB)
+		dir("Punish", token.ADD)
+		om := c.fn("(*query.peerRanking).Order")
+		var less *ssa.Function
+		for _, af := range om.AnonFuncs {
+			if af.Signature.Results().Len() == 1 && af.Signature.Params().Len() == 2 {
+				less = af
+			}
+		}
+		constructO := c.nm(om) + " | sorts ascending: less(i, j) is score(i) < score(j)"
+		if less == nil {
+			c.fail(constructO, c.P.Pos(om.Pos()), "no less closure found in Order")
+			return
+		}
+		// which parameter each operand of the returned comparison derives from
+		uses := func(v ssa.Value, p *ssa.Parameter) bool {
+			seen := map[ssa.Value]bool{}
+			var rec func(v ssa.Value) bool
+			rec = func(v ssa.Value) bool {
+				if v == nil || seen[v] {
+					return false
+				}
+				seen[v] = true
+				if v == ssa.Value(p) {
+					return true
+				}
+				switch x := v.(type) {
+				case *ssa.Phi:
+					for _, e := range x.Edges {
+						if rec(e) {
+							return true
+						}
+					}
+				case *ssa.Extract:
+					return rec(x.Tuple)
+				case *ssa.Lookup:
+					return rec(x.Index)
+				case *ssa.UnOp:
+					return rec(x.X)
+				case *ssa.IndexAddr:
+					return rec(x.Index)
+				case *ssa.Index:
+					return rec(x.Index)
+				case *ssa.Convert:
+					return rec(x.X)
+				case *ssa.ChangeType:
+					return rec(x.X)
+				}
+				return false
+			}
+			return rec(v)
+		}
+		side := func(v ssa.Value) int {
+			r := -1
+			for i, p := range less.Params {
+				if uses(v, p) {
+					if r >= 0 {
+						return -2
+					}
+					r = i
+				}
+			}
+			return r
+		}
+		okLess := false
+		seen := 0
+		ir.Instrs(less, func(in ssa.Instruction) {
+			ret, ok := in.(*ssa.Return)
+			if !ok || len(ret.Results) != 1 {
+				return
+			}
+			b, ok := ret.Results[0].(*ssa.BinOp)
+			if !ok {
+				return
+			}
+			seen++
+			l, r := side(b.X), side(b.Y)
+			switch {
+			case b.Op == token.LSS && l == 0 && r == 1, b.Op == token.GTR && l == 1 && r == 0:
+				okLess = true
+			}
+		})
+		c.verdict(okLess && seen == 1, constructO, c.P.Pos(less.Pos()), "return score(peers[i]) < score(peers[j])", "the less function of Order does not compare the score of i below the score of j: the best-scored (lowest) peers no longer come first")
+	})
+
 	c.rule("C12.O2", "worker.Run: once a job is received every path to the next job or to a return passes the send of a result (select with the results channel), except through the quit arm; an error-free result is sent only after the handler reported Finished", func() {
 		fn := c.fn(fnWRun)
 		nextJob := c.field("query", "worker", "nextJob")
@@ -758,4 +942,42 @@ func (c *Ctx) attemptBounded() {
 		return
 	}
 	c.guarded(fn, g, 1, "re-arm the attempt timer", arms, 1, gDominate)
+}
+
+const noJobLostDoc = "no job lost: when a result carries an error, every path through the iteration either sends the batch's verdict or pushes the job back on the work heap and restores its currentQueries entry"
+
+// noJobLost: see noJobLostDoc.
+func (c *Ctx) noJobLost() {
+	fn := c.fn(fnDispatch)
+	errF := c.field("query", "jobResult", "err")
+	nilCmps := find(fn, binops(eqOps, func(v ssa.Value) bool { return isLoadOfPath(v, errF) }, ir.IsNil))
+	g := equalIs("result.err vs nil", nilCmps, true)
+	send := sendOn(c.loadsFieldNamed("batchProgress", "errChan"))
+	push := c.funcObj("container/heap", "Push")
+	jobF := c.field("query", "jobResult", "job")
+	repush := func(in ssa.Instruction) bool {
+		if !callTo(push)(in) {
+			return false
+		}
+		return ir.DerivesFrom(ir.CallOf(in).Args[1], func(x ssa.Value) bool {
+			fa, ok := x.(*ssa.FieldAddr)
+			return ok && ir.FieldOfAddr(fa) == jobF
+		})
+	}
+	c.mustFollowIter(fn, "result.err != nil", c.failEdges(g), anyOf(send, repush), "verdict send / heap.Push(work, result.job)", nil, 1)
+	// after a re-push the query index is re-registered
+	isQueries := func(v ssa.Value) bool {
+		m, ok := v.Type().Underlying().(*types.Map)
+		if !ok {
+			return false
+		}
+		kb, ok1 := m.Key().Underlying().(*types.Basic)
+		vb, ok2 := m.Elem().Underlying().(*types.Basic)
+		return ok1 && ok2 && kb.Kind() == types.Uint64 && vb.Kind() == types.Uint64
+	}
+	var starts []start
+	for _, p := range find(fn, repush) {
+		starts = append(starts, afterInstr(c, p))
+	}
+	c.mustFollowIter(fn, "job pushed back", starts, mapUpdate(isQueries), "currentQueries[job.index] = batchNum", nil, 1)
 }
